@@ -355,7 +355,7 @@ func pickTarget(prop string, seed uint64) string {
 			return "legacy"
 		}
 	default:
-		if x < 12 {
+		if x < 20 {
 			return "legacy"
 		}
 	}
